@@ -475,11 +475,32 @@ def rule_opt_forms(model):
                               'window end / orphan rule is off by that '
                               'difference', node=st, ctx=fi)
     # an explicit end smaller than start is raised to start
-    fix = [x for x in nodes if isinstance(x, ast.If)
-           and norm(x.test) in ('end < start', 'start > end')]
+    def _raised(x):
+        # if E < S: E = S   /   E = max(E, S)
+        if isinstance(x, ast.If) and isinstance(x.test, ast.Compare) and \
+                len(x.test.ops) == 1 and isinstance(
+                    x.test.left, ast.Name) and isinstance(
+                    x.test.comparators[0], ast.Name) and x.body and \
+                isinstance(x.body[0], ast.Assign) and not x.orelse:
+            l, r_ = x.test.left.id, x.test.comparators[0].id
+            op = x.test.ops[0]
+            small, big = (l, r_) if isinstance(op, (ast.Lt, ast.LtE)) else (
+                (r_, l) if isinstance(op, (ast.Gt, ast.GtE)) else (None,
+                                                                   None))
+            return small is not None and \
+                norm(x.body[0]) == f'{small} = {big}' and small != big
+        if isinstance(x, ast.Assign) and len(x.targets) == 1 and \
+                isinstance(x.targets[0], ast.Name) and isinstance(
+                    x.value, ast.Call) and norm(x.value.func) == 'max' and \
+                len(x.value.args) == 2 and x.targets[0].id in [
+                    norm(a_) for a_ in x.value.args] and all(
+                    isinstance(a_, ast.Name) for a_ in x.value.args):
+            return True
+        return False
+    fix = [x for x in nodes if _raised(x)]
     r.instance(fi.where, 'if end < start: end = start',
                'ok' if fix else 'MISSING')
-    if not fix or norm(fix[0].body[0]) != 'end = start':
+    if not fix:
         r.finding(fi.where, 'end >= start', 'an end before start is not '
                   'corrected (start <= end must hold)', node=fi.node,
                   ctx=fi)
